@@ -421,3 +421,145 @@ pub fn scenario(sseed: u64, _tier: Tier) -> Report {
     let _ = cfg.n_keys;
     rep
 }
+
+// ---------------------------------------------------------------------------------------
+// E-STRESS: real threads on one (shared or private) store. Only time-independent facts are
+// judged: a response belongs to the request's key, a response that is not the caller's own
+// inner result was produced by an earlier *successful* inner call of that key, a miss calls the
+// inner service exactly once, errors come from the caller's own inner call.
+// ---------------------------------------------------------------------------------------
+
+pub fn stress(sseed: u64, calls: u64) -> Report {
+    use tower::Service;
+    let mut rng = Prng::new(sseed);
+    let workers = *rng.pick(&[4usize, 8, 16]);
+    let pol = *rng.pick(&[Pol::Lru, Pol::Lfu, Pol::Fifo]);
+    let max_size = rng.range(1, 3) as usize;
+    let n_keys = 4u32;
+    let mut rep = Report::default();
+    let rt = tokio::runtime::Builder::new_multi_thread().worker_threads(workers).enable_time().build().unwrap();
+    let w = World::new();
+    let layer = SharedCacheLayer::<Req, u32, Resp>::builder()
+        .max_size(max_size)
+        .eviction_policy(match pol {
+            Pol::Lru => EvictionPolicy::Lru,
+            Pol::Lfu => EvictionPolicy::Lfu,
+            Pol::Fifo => EvictionPolicy::Fifo,
+        })
+        .ttl(Duration::from_millis(2))
+        .key_extractor(|r: &Req| r.key)
+        .build();
+    let svc = layer.layer(w.probe(1));
+    let tasks = 32u64;
+    let per = calls / tasks;
+    let results = rt.block_on(async {
+        tokio::time::timeout(Duration::from_secs(120), async {
+            let mut hs = vec![];
+            for t in 0..tasks {
+                let svc = svc.clone();
+                let mut r = Prng::new(sseed ^ (t + 1) * 0x2545F);
+                hs.push(tokio::spawn(async move {
+                    let mut out = vec![];
+                    for i in 0..per {
+                        let mut s = svc.clone();
+                        let key = r.below(n_keys as u64) as u32;
+                        let id = t * 10_000_000 + i + 1;
+                        let lat = if r.chance(0.5) { Lat::Us(0) } else { Lat::Us(r.range(1, 200)) };
+                        let o = if r.chance(0.8) { Out::Ok } else { Out::Err(1) };
+                        let req = Req::new(id, key, vec![Step { lat, out: o }]);
+                        if std::future::poll_fn(|cx| s.poll_ready(cx)).await.is_err() {
+                            continue;
+                        }
+                        let res = s.call(req).await;
+                        out.push((id, key, match &res { Ok(x) => Outcome::ok(x), Err(e) => map_err(e) }));
+                        if r.chance(0.02) {
+                            tokio::time::sleep(Duration::from_micros(r.range(500, 3000))).await;
+                        }
+                    }
+                    out
+                }));
+            }
+            let mut all = vec![];
+            for h in hs {
+                if let Ok(v) = h.await {
+                    all.extend(v);
+                }
+            }
+            all
+        })
+        .await
+    });
+    rt.shutdown_background();
+    let results = match results {
+        Ok(r) => r,
+        Err(_) => {
+            rep.inconclusive = Some("stress run did not finish within 120s".into());
+            return rep;
+        }
+    };
+    let log = w.take_log();
+    // serial -> (key, request, ended ok?)
+    let mut by_serial: HashMap<u64, (u32, u64, bool)> = HashMap::new();
+    let mut calls_of: HashMap<u64, u32> = HashMap::new();
+    for r in &log {
+        match &r.ev {
+            Ev::InnerEnter { serial, key, req, .. } => {
+                by_serial.insert(*serial, (*key, *req, false));
+                *calls_of.entry(*req).or_insert(0) += 1;
+            }
+            Ev::InnerExit { serial, how, .. } => {
+                if let Some(e) = by_serial.get_mut(serial) {
+                    e.2 = matches!(how, crate::world::How::Ok);
+                }
+            }
+            _ => {}
+        }
+    }
+    let mut hits = 0u64;
+    for (id, key, out) in &results {
+        let n = calls_of.get(id).copied().unwrap_or(0);
+        match out {
+            Outcome::Ok { serial, .. } => {
+                let (k, owner, ok) = match by_serial.get(serial) {
+                    Some(x) => *x,
+                    None => {
+                        rep.violate("C10:stress:value-from-nowhere", format!("r{id}: response #{serial} was never produced by the inner service"));
+                        continue;
+                    }
+                };
+                if k != *key {
+                    rep.violate("C10:stress:value-of-another-key", format!("r{id} (key {key}) received response #{serial} which was produced for key {k}"));
+                }
+                if !ok {
+                    rep.violate("C10:stress:failed-call-served", format!("r{id}: response #{serial} belongs to an inner call that did not succeed"));
+                }
+                if owner == *id {
+                    if n != 1 {
+                        rep.violate("C10:stress:miss-inner-calls", format!("r{id}: miss with {n} inner calls"));
+                    }
+                } else {
+                    hits += 1;
+                    if n != 0 {
+                        rep.violate("C10:stress:hit-called-inner", format!("r{id}: served #{serial} of r{owner} from the cache but also called the inner service {n} times"));
+                    }
+                }
+            }
+            Outcome::Inner { serial, .. } => {
+                if by_serial.get(serial).map(|x| x.1) != Some(*id) {
+                    rep.violate("C10:stress:foreign-error", format!("r{id}: received error #{serial} of another request: errors must never be cached"));
+                }
+            }
+            other => rep.violate("C10:stress:unexpected-outcome", format!("r{id}: {}", other.short())),
+        }
+        if rep.violations.len() > 10 {
+            break;
+        }
+    }
+    rep.count("stress_requests", results.len() as u64);
+    rep.count("stress_hits", hits);
+    rep.count("stress_inner_calls", by_serial.len() as u64);
+    rep.nontrivial = hits > 0;
+    rep.sig = crate::prng::mix(sseed, hits);
+    rep.case = json!({"engine":"stress","workers":workers,"policy":format!("{pol:?}"),"max_size":max_size,"requests":results.len(),"hits":hits,"inner_calls":by_serial.len()});
+    rep
+}
